@@ -1,4 +1,105 @@
 package main
 
-// placeholder; compile-fail witnesses are added later
-func witnessRules(c *Ctx, prop string) {}
+// WITNESS — compile-fail witnesses (DESIGN §2.2): small programs over the public API that must fail to
+// type-check against the current tree with a specific error. They are parsed and type-checked with go/types
+// against the packages already loaded; nothing is compiled or executed.
+
+import (
+	"fmt"
+	"go/ast"
+	"go/parser"
+	"go/token"
+	"go/types"
+	"os"
+	"path/filepath"
+	"sort"
+	"strings"
+)
+
+type progImporter struct{ p *Program }
+
+func (pi progImporter) Import(path string) (*types.Package, error) {
+	var found *types.Package
+	seen := map[string]bool{}
+	var visit func(pk *types.Package)
+	visit = func(pk *types.Package) {
+		if pk == nil || seen[pk.Path()] || found != nil {
+			return
+		}
+		seen[pk.Path()] = true
+		if pk.Path() == path {
+			found = pk
+			return
+		}
+		for _, im := range pk.Imports() {
+			visit(im)
+		}
+	}
+	for _, pk := range pi.p.Pkgs {
+		visit(pk.Types)
+	}
+	if found == nil {
+		return nil, fmt.Errorf("package %s not loaded", path)
+	}
+	return found, nil
+}
+
+var witnessDir = "/verif/witness"
+
+func witnessRules(c *Ctx, prop string) {
+	c.Rule("witness")
+	files, _ := filepath.Glob(filepath.Join(witnessDir, "*.go.txt"))
+	sort.Strings(files)
+	n := 0
+	for _, f := range files {
+		src, err := os.ReadFile(f)
+		if err != nil {
+			continue
+		}
+		first := strings.SplitN(string(src), "\n", 2)[0]
+		parts := strings.SplitN(strings.TrimPrefix(first, "// props:"), "| expect:", 2)
+		if len(parts) != 2 {
+			continue
+		}
+		applies := false
+		for _, p := range strings.Fields(parts[0]) {
+			if p == prop {
+				applies = true
+			}
+		}
+		if !applies {
+			continue
+		}
+		want := strings.TrimSpace(parts[1])
+		name := strings.TrimSuffix(filepath.Base(f), ".go.txt")
+		fset := token.NewFileSet()
+		af, err := parser.ParseFile(fset, name+".go", src, 0)
+		if err != nil {
+			c.Unresolved("witness:"+name, "witness does not parse: "+err.Error())
+			continue
+		}
+		var errs []string
+		conf := types.Config{Importer: progImporter{c.P}, Error: func(e error) { errs = append(errs, e.Error()) }}
+		conf.Check("witness", fset, []*ast.File{af}, nil)
+		n++
+		joined := strings.Join(errs, "; ")
+		if want == "OK" {
+			if len(errs) == 0 {
+				c.Ok("witness:"+name, "", "control program type-checks (imports resolve)")
+			} else {
+				c.Fail("witness:"+name, "", "a control program over the public API no longer type-checks: "+joined, "")
+			}
+			continue
+		}
+		if len(errs) == 0 {
+			c.Fail("witness:"+name, "", "a program that must not compile now type-checks: user code can reach lock-protected internals or mutate built objects ("+strings.TrimSpace(first)+")", string(src))
+			continue
+		}
+		if !strings.Contains(joined, want) {
+			c.Fail("witness:"+name, "", fmt.Sprintf("the witness fails to type-check, but not with the expected error %q: %s", want, joined), "")
+			continue
+		}
+		c.Ok("witness:"+name, "", "does not type-check: "+firstLine(joined))
+	}
+	c.Floor("compile-fail witnesses for "+prop, n, 1)
+}
